@@ -119,6 +119,38 @@ func interpFieldStore(in ssa.Instruction) (string, ssa.Value) {
 	return "", nil
 }
 
+// interpFieldStores: like interpFieldStore, but a store of a whole component struct of the interpreter
+// (`p.contextState = newContextState(ctx)`, `p.recordState = recordState{}`) counts as a store of every field of the
+// component; zeroed reports that the value stored is the zero value of the component (all its fields are cleared).
+func interpFieldStores(in ssa.Instruction) (names []string, val ssa.Value, zeroed bool) {
+	st, ok := in.(*ssa.Store)
+	if !ok {
+		return nil, nil, false
+	}
+	f, x := fieldOfAddr(st.Addr)
+	if f == nil || !isInterp(x.Type()) {
+		return nil, nil, false
+	}
+	if cs, ok := f.Type().Underlying().(*types.Struct); ok && isInterp(f.Type()) {
+		var flat func(s *types.Struct, d int)
+		flat = func(s *types.Struct, d int) {
+			for i := 0; i < s.NumFields(); i++ {
+				names = append(names, s.Field(i).Name())
+				if inner, ok := s.Field(i).Type().Underlying().(*types.Struct); ok && isInterp(s.Field(i).Type()) && d < 3 {
+					flat(inner, d+1)
+				}
+			}
+		}
+		names = append(names, f.Name())
+		flat(cs, 0)
+		if k, ok := st.Val.(*ssa.Const); ok && k.Value == nil {
+			zeroed = true
+		}
+		return names, st.Val, zeroed
+	}
+	return []string{f.Name()}, st.Val, false
+}
+
 func reachableFrom(b *ssa.BasicBlock) map[*ssa.BasicBlock]bool {
 	seen := map[*ssa.BasicBlock]bool{}
 	var walk func(x *ssa.BasicBlock)
